@@ -6,7 +6,7 @@ from typing import List, Optional, Tuple
 
 from ..collect import Path, callee_is, run_paths
 from ..common import calls_in, construct, where
-from ..flow import NONE, Value, show
+from ..flow import subterms, NONE, Value, show
 from ..loader import AnalysisError, ClassInfo, FuncInfo, Program
 from ..report import Report
 
@@ -298,8 +298,16 @@ def run(p: Program, rep: Report, tier: str) -> None:
                 else:
                     rep.violation("R9.4", construct(call, text="match branch"), where(call), f"{side} Hosts: the endpoint returned by search() is not the application invoked")
             hv = show(s.b[0]) if s.b else ""
-            if side == "wsgi" and "HTTP_HOST" not in hv:
-                rep.violation("R9.4", construct(call, text=f"search({hv})"), where(call), "wsgi Hosts: the value searched is not the Host header")
+            if side == "wsgi":
+                a0 = s.b[0] if s.b else None
+                env_reads = [t for t in subterms(a0) if t[0] in ("call", "sub") and ((t[0] == "call" and t[1][0] == "attr" and t[1][1] == ("param", "environ")) or (t[0] == "sub" and t[1] == ("param", "environ")))] if a0 else []
+                keys = sorted({(t[2][0][1] if t[0] == "call" and t[2] and t[2][0][0] == "const" else (t[2][1] if t[0] == "sub" and t[2][0] == "const" else "?")) for t in env_reads})
+                if keys != ["HTTP_HOST"]:
+                    rep.violation("R9.4", construct(call, text=f"search({hv[:70]})"), where(call),
+                                  f"wsgi Hosts: the value searched is computed from environ keys {keys}, not from the Host header alone: a request without a Host header is dispatched by the server's own name "
+                                  "instead of being answered 404 (and differently from ASGI)")
+                else:
+                    rep.ok("R9.4", "wsgi Hosts: the value searched is the Host header (environ HTTP_HOST) alone")
         if ok404 and okhit:
             rep.ok("R9.4", f"{side} Hosts: 404 fallback and dispatch to the found endpoint")
         else:
